@@ -269,6 +269,8 @@ Proof.
     unfold act_select_all. destruct (_ || _); cbn; lia.
   - eexists. split; [reflexivity|]. split; [apply sel_only_good, HG | cbn; lia].
   - eexists. split; [reflexivity|]. split; [exact HG | cbn; lia].
+  - eexists. split; [reflexivity|]. unfold act_select_raw_item. destruct (negb (multi s)); (split; [exact HG | cbn; lia]).
+  - eexists. split; [reflexivity|]. unfold act_select_raw_item. destruct (negb (multi s)); (split; [exact HG | cbn; lia]).
 Qed.
 
 Lemma run_good : forall ops s, Good s -> Forall op_bounded ops ->
@@ -337,6 +339,8 @@ Proof.
   - inversion E; subst. unfold act_select_all. destruct (_ || _); cbn; lia.
   - inversion E; subst. cbn. lia.
   - inversion E; subst. cbn. lia.
+  - inversion E; subst. unfold act_select_raw_item. destruct (negb (multi s)); cbn; lia.
+  - inversion E; subst. unfold act_select_raw_item. destruct (negb (multi s)); cbn; lia.
 Qed.
 
 Lemma run_g_inv : forall ops s g, Good s -> Forall op_bounded ops ->
